@@ -130,14 +130,14 @@ def check(run):
     run.clause('arrival order: m_incoming_conns is appended at the back, read and erased at the front, cleared on the closed path; nothing else')
     KINDS = {
         A + '::incoming_packet': {'method:push_back'},
-        A + '::check_accept_queue': {'method:front', 'method:erase', 'method:begin', 'method:clear', 'method:empty', 'read', 'move', 'method:end'},
+        A + '::check_accept_queue': {'method:front', 'method:pop_front', 'method:begin', 'method:clear', 'method:empty', 'read', 'move', 'method:end'},
     }
     seen_kinds = {}
     for fn in fx.repo_functions():
         if fn.d.get('defaulted'):
             continue
         for a in q.field_accesses(fn, {A + '::m_incoming_conns'}):
-            k = a.kind + (':' + a.method if a.kind == 'method' else '')
+            k = a.kind + (':' + (q.canon_op(fn, a.site) if a.site['k'] == 'call' else a.method) if a.kind == 'method' else '')
             seen_kinds.setdefault(q.top_function(fx, fn).norm, set()).add(k)
             top = q.top_function(fx, fn).norm
             if a.kind == 'method' and a.method in ('begin', 'end', 'empty', 'size', 'front') or a.kind in ('read', 'arg'):
@@ -147,10 +147,10 @@ def check(run):
                 okk = True
             run.check(okk, 'R2k', 'accept-queue-ops', '%s: %s on m_incoming_conns' % (top, k), fn.loc(a.node),
                       'm_incoming_conns is mutated by %s in %s, outside the FIFO discipline (push_back on SYN; front+erase(begin) / clear in check_accept_queue)' % (k, top), 'allowed FIFO operation')
-    for c in caq.calls():
-        if (c.get('callee') or '').endswith('::erase') and q.render(caq, c.get('obj')) == 'm_incoming_conns':
-            run.check(q.render(caq, c['args'][0]) == 'm_incoming_conns.begin()' and len(c['args']) == 1, 'R2k', 'accept-queue-pop-front', A + '::check_accept_queue', caq.loc(c),
-                      'check_accept_queue erases %s, not the front' % q.render(caq, c['args'][0]), 'erases begin()')
+    for op, c in q.container_calls(caq, 'm_incoming_conns'):
+        if op in ('erase', 'pop_back', 'pop_front'):
+            run.check(op == 'pop_front', 'R2k', 'accept-queue-pop-front', A + '::check_accept_queue', caq.loc(c),
+                      'check_accept_queue removes with %s, not the front' % op, 'removes the front')
     fronts = [n for n in caq.all_nodes() if n['k'] == 'call' and (n.get('callee') or '').endswith('::front') and q.render(caq, n.get('obj')) == 'm_incoming_conns']
     run.check(len(fronts) == 1, 'R2k', 'accept-queue-read-front', A + '::check_accept_queue', caq.loc(), 'the connection handed out is not m_incoming_conns.front()', 'hands out front()')
     run.floor('R2k', 4)
